@@ -25,7 +25,7 @@ def sizes(tier, search=False):
     if tier == "quick":
         return dict(per_in=500, per_any=1000, nseq=1000, seqlen=80)
     if not search:
-        return dict(per_in=2000, per_any=5000, nseq=5000, seqlen=120)
+        return dict(per_in=1000, per_any=2500, nseq=4000, seqlen=120)
     return dict(per_in=4000, per_any=8000, nseq=8000, seqlen=120)
 
 
@@ -90,14 +90,14 @@ def run(tier, seed, replay=None):
         z = sizes(tier)
         lines = R.corpus(PID) + R.gen_cases(r, z["per_in"], z["per_any"], z["nseq"], z["seqlen"])
 
-    obs = {d: C.drive_parallel(hs[d], lines) for d in usable}
+    obs = {d: C.drive_parallel(hs[d], lines, timeout_per_case=2.0) for d in usable}
     tv = []
     validated = 0
     if model_exe:
         for d, x in (("sv", None), ("v", "0"), ("v", "1"), ("synthv", "0"), ("synthv", "1")):
             if d not in obs:
                 continue
-            m = C.drive_parallel(model_exe, lines, args=[d] + ([x] if x else []))
+            m = C.drive_parallel(model_exe, lines, args=[d] + ([x] if x else []), timeout_per_case=2.0)
             for l, a, b in zip(lines, obs[d], m):
                 if a != b:
                     tv.append((d, x, l, a, b))
@@ -114,7 +114,7 @@ def run(tier, seed, replay=None):
         z = sizes(tier, search=True)
         r2 = C.Rng(seed * 7919 + 13)
         more = R.gen_cases(r2, z["per_in"], z["per_any"], z["nseq"], z["seqlen"])
-        obs2 = {d: C.drive_parallel(hs[d], more) for d in usable}
+        obs2 = {d: C.drive_parallel(hs[d], more, timeout_per_case=2.0) for d in usable}
         bad = lockstep(more, obs2)
         searched = len(more)
         C.log(f"[search] {searched} more cases; lock-step differences {len(bad)}")
